@@ -192,7 +192,15 @@ class M(Hooks):
                         return
         if k in DEAL and s.street_index is not None:
             self.dealt_streets.add(s.street_index)
-        if k == 'deal_board':
+        if k == 'deal_board' and s.street is not None and \
+                s.street.hole_dealing_statuses and \
+                s.street.board_dealing_count:
+            # a custom street that prescribes hole cards and community cards
+            # at once: where its fall-back card belongs is not specified
+            # (section 9.2, fall-back boards) - not judged from here on
+            self.mixed_street_boards = True
+        if k == 'deal_board' and not getattr(self, 'mixed_street_boards',
+                                             False):
             # a community card lies on (at least) one board
             lying = [c for row in s.board_cards for c in row]
             seen = [c for b in s.board_indices for c in s.get_board_cards(b)]
@@ -310,6 +318,22 @@ class M(Hooks):
             self.v('named_dealee_ignored', '',
                    f'deal_hole{args!r} dealt to player'
                    f' {getattr(result, "player_index", None)}: {result!r}')
+
+        # the cards a player asks to discard are the cards he discards, in
+        # whatever documented form (text, list, iterator, generator) he
+        # names them
+        if kind == 'stand_pat_or_discard' and args and \
+                isinstance(args[0], tuple):
+            asked = sorted(map(repr, args[0]))
+            done = sorted(map(repr, getattr(result, 'cards', ())))
+            if it.cfg.get('arg_form'):
+                self.flags.add('discards_given_as_' + it.cfg['arg_form'])
+            if asked != done:
+                self.v('discard_request_ignored', it.cfg.get('arg_form') or
+                       'tuple',
+                       f'asked to discard {asked} (given as'
+                       f' {it.cfg.get("arg_form") or "tuple"}), the'
+                       f' operation discarded {done}: {result!r}')
 
     def quiescent(self, it):
         if self.viol:
